@@ -586,6 +586,17 @@ func (e *Env) trCall(n *ast.CallExpr) TVal {
 			return TVal{T: "nilS", Sort: "Slice"}
 		}
 		return TVal{T: "(unboxSlice " + arg(0).T + ")", Sort: "Slice", Ty: types.Typ[types.String]}
+	case "ptr":
+		// ptr(x, "pkg.T"): the *T held in interface value x (the dynamic value of a pointer type is the pointer)
+		if !need(2) {
+			return TVal{T: "0", Sort: "Int"}
+		}
+		tn := strings.Trim(exprString(n.Args[1]), "\"")
+		ty := e.x.eng.lookupType(tn, e.pkg)
+		if ty == nil {
+			return e.fail("ptr: unknown type %s", tn)
+		}
+		return TVal{T: arg(0).T, Sort: "Int", Ty: types.NewPointer(ty)}
 	case "typeis":
 		if !need(2) {
 			return TVal{T: "false", Sort: "Bool"}
